@@ -41,6 +41,10 @@ def check(run):
         from . import C13 as _C13t
         bt = run.borrow("C13", why="optimisation reorders the buckets: the redirect chosen among matching rules must not depend on the order they are visited in")
         run.guard("C05.via.C13.6.priority-suffix", cfg, lambda: _C13t.rule_tie_break(bt, F, cfg))
+        from . import C07 as _C07g
+        bg = run.borrow("C07", why="fusion changes the order of a bucket: `check` has to find A matching rule whose tag is enabled "
+                                    "whatever comes first -- the tag test belongs to the search, not behind it")
+        run.guard("C05.via.C07.2.gate-shape", cfg, lambda: _C07g.rule_gate_shape(bg, F, cfg))
         from . import C02 as _C02rc
         brc = run.borrow("C02", only=r"regex-text-case|builders-|one-regex-only", why="the fused set must match like its members: every builder of compile_regex is configured alike, and all patterns of a fused filter are compiled together")
         run.guard("C05.via.C02.3.regex-translation", cfg, lambda: (_C02rc.rule_regex_case(brc, F, cfg), _C02rc.rule_regex_builder(brc, F, cfg)))
